@@ -12,6 +12,9 @@
              Gen/C10_guard.v     pair_guard_sound (partner must have the same order),
                                  ILT_LT_gen : L(ILT F) = F for every F in normal form
              Gen/C10_ds.v        damped_sin_k
+             Gen/C10_delay.v     delay_factor_sign, term_shift_c/u, term_step_at_delay,
+                                 term_fallback_keeps_delay, term_fallback_LT_gen
+             Gen/C10_residue.v   res_sel_spec, res_div_spec (k! divisor), residues_sub_gen_is_model
              props/C10.v         signal algebra (ExpPoly), loop / term / make model
                                  (ILT), causal flags, ivt/fvt, cache, round-trip checker
   correspond generated rational functions (pole patterns x delays x options), the
@@ -43,18 +46,26 @@ MANIFEST = {
             'exponential-polynomial-plus-impulses signal algebra: ILT_LT_gen - for EVERY image in partial-fraction normal form (any number '
             'of terms, delays, poles, multiplicities, polynomial part) L(ILT F) = F at every non-pole s, with the per-branch closed forms '
             '(simple pole, repeated pole, conjugate pair via Euler, Dirac terms), the partner-search guard and do_damped_sin regenerated '
-            'from the CURRENT source on every run (branch_simple/repeated/conj/poly, pair_guard_sound, damped_sin_k); causal_flag / '
-            'noncausal_flag / delayed_flag for the t >= 0 bookkeeping; ivt_fvt; cache_sound for any history. Root finding and division are '
-            'oracles: Lcapy\'s (Q,R,P,O) are accepted only through the verified checker pf_check. The hand model is validated on each run '
-            'inside Coq (vm_compute over Q(i)) against the real X(t, **opts), and L(Lcapy\'s own output) = input is certified per case by '
-            'the verified round-trip checker.',
+            'from the CURRENT source on every run (branch_simple/repeated/conj/poly, pair_guard_sound, damped_sin_k); the delay bookkeeping '
+            'of delay_factor()/term() is translated too (delay_factor_sign, term_shift_c/u, term_step_at_delay, term_fallback_keeps_delay) and '
+            'term_fallback_LT_gen proves the expand-and-recurse fall-back for every list of pieces; causal_flag / noncausal_flag / delayed_flag '
+            'for the t >= 0 bookkeeping; ivt_fvt; cache_sound for any history. Residues of the substitution method: residue_k_general proves, '
+            'for EVERY multiplicity n, that the Taylor-jet coefficients c_k = (B/C)^(k)(p)/k! are the residues at p; the selection test and '
+            'the k! divisor of Ratfun._find_residues_sub are translated (res_sel_spec, res_div_spec, residues_sub_gen_is_model). Root finding '
+            'and division are oracles: Lcapy\'s (Q,R,P,O) are accepted only through the verified checker pf_check. The hand model is validated '
+            'on each run inside Coq (vm_compute over Q(i)) against the real X(t, **opts) - with the delays computed by the translated '
+            'definitions and Lcapy\'s residues compared with both the formula model and the jet residues - and L(Lcapy\'s own output) = input '
+            'is certified per case by the verified round-trip checker.',
     'note': 'Trusted: Coq kernel/vm_compute; tools/tr_ilt.py + statement templates in checks/c10.py; the sympy-based parser of the time '
             'function in tools/impl_ilt.py; specification coq/theory/ExpPoly.v (L as the linear map t^n/n! e^{pt} -> 1/(s-p)^{n+1}, '
             'delta^(k) -> s^k, cos/sin by Euler; analytic meaning of the table entry for real s > p in ExpPolyAnalysis.v). Partial: '
-            'sympy.roots / polynomial division / general-multiplicity residues are oracles checked per case; convolution results of '
-            'product_undef1 are classified, not evaluated.',
-    'technique': 'Coq proof over abstract fields (signal algebra + polynomial theory) with source-translated closed forms + in-Coq '
-                 'correspondence evaluation over Gaussian rationals + verified per-case certificate checking + exact search oracle',
+            'sympy.roots and polynomial division are oracles checked per case; that the iterated symbolic derivative expr.diff(var)^k / k! '
+            'of the rational function equals the k-th jet coefficient is proved for k <= 1 (residue_sub_simple/double) and compared per '
+            'case inside Coq for k >= 2 (the higher-order quotient rule is not proved); convolution results of product_undef1 are '
+            'classified, not evaluated.',
+    'technique': 'Coq proof over abstract fields (signal algebra + polynomial theory) with source-translated closed forms, residue '
+                 'divisor and delay bookkeeping + in-Coq correspondence evaluation over Gaussian rationals + verified per-case '
+                 'certificate checking + exact search oracle',
 }
 
 THEORY = ['FieldSec', 'PolyQ', 'QcI', 'ExpPoly', 'ILT', 'ILTResidue', 'ILTCorr', 'ExpPolyAnalysis']
@@ -140,10 +151,35 @@ End Obl.
 '''
 
 
+RES_BODY = r'''(* Ratfun._find_residues_sub: a factor (x - p_j) enters the cover-up denominator of entry i
+   iff it belongs to another pole, or to the same pole with a higher order *)
+Theorem res_sel_spec : forall same oi oj, (same = true -> oi <> oj) ->
+  res_sel_gen same oi oj = (negb same || Nat.ltb oi oj)%bool.
+Proof. intros same oi oj Hd. unfold res_sel_gen.
+  destruct same; [specialize (Hd eq_refl)|];
+  destruct (Nat.ltb_spec0 oi oj); destruct (Nat.leb_spec0 oi oj); destruct (Nat.eqb_spec oi oj);
+  destruct (Nat.ltb_spec0 oj oi); destruct (Nat.leb_spec0 oj oi);
+  cbn; try reflexivity; exfalso; lia. Qed.
+
+(* Ratfun._find_residues_sub: the k-th derivative is divided by k! (k = M - O), as in the
+   Taylor coefficient (B/C)^(k)(p)/k! of ILTResidue.residue_k_general *)
+Theorem res_div_spec : forall (K : fld) (M O : nat), res_div_gen (K:=K) M O = fact_div (K:=K) M O.
+Proof. intros K M O. unfold res_div_gen, fact_div. reflexivity. Qed.
+Lemma residues_go_gen_is_model : forall (K : fld) sel Bn all es i e,
+  residues_go_d (K:=K) sel res_div_gen Bn all i es e = residues_go_d sel fact_div Bn all i es e.
+Proof. intros K sel Bn all es. induction es as [|[[[k p] o] M] es IH]; intros i e; cbn [residues_go_d]; [reflexivity|].
+  rewrite res_div_spec, IH. reflexivity. Qed.
+Theorem residues_sub_gen_is_model : forall (K : fld) sel poles Bn,
+  residues_sub_d (K:=K) sel res_div_gen poles Bn = residues_sub sel poles Bn.
+Proof. intros. unfold residues_sub, residues_sub_d. apply residues_go_gen_is_model. Qed.
+
+'''
+
+
 # ---------------------------------------------------------------- theorem files
 def branches_v(tr):
     return (HEADER % 'lcapy/inverse_laplace.py') + r'''
-Require Import LT.FieldSec LT.PolyQ LT.ExpPoly LT.ILT Gen.ILTGen.
+Require Import LT.FieldSec LT.PolyQ LT.ExpPoly LT.ILT LT.ILTResidue Gen.ILTGen.
 From Coq Require Import String.
 Local Open Scope F_scope.
 Section Obl.
@@ -212,17 +248,7 @@ Theorem cache_key_complete : forallb in_key opt_reads_gen = true /\ forallb in_k
 Proof. vm_compute. repeat split. Qed.
 Close Scope string_scope.
 
-(* Ratfun._find_residues_sub: a factor (x - p_j) enters the cover-up denominator of entry i
-   iff it belongs to another pole, or to the same pole with a higher order *)
-Theorem res_sel_spec : forall same oi oj, (same = true -> oi <> oj) ->
-  res_sel_gen same oi oj = (negb same || Nat.ltb oi oj)%bool.
-Proof. intros same oi oj Hd. unfold res_sel_gen.
-  destruct same; [specialize (Hd eq_refl)|];
-  destruct (Nat.ltb_spec0 oi oj); destruct (Nat.leb_spec0 oi oj); destruct (Nat.eqb_spec oi oj);
-  destruct (Nat.ltb_spec0 oj oi); destruct (Nat.leb_spec0 oj oi);
-  cbn; try reflexivity; exfalso; lia. Qed.
-
-Print Assumptions branch_simple. Print Assumptions branch_repeated. Print Assumptions res_sel_spec. Print Assumptions branch_conj. Print Assumptions branch_poly.
+Print Assumptions branch_simple. Print Assumptions branch_repeated. Print Assumptions branch_conj. Print Assumptions branch_poly.
 Print Assumptions branches_gen_ok. Print Assumptions cache_key_complete.
 '''
 
@@ -442,6 +468,11 @@ def corpus_cases():
     t1 = poly_term([1], [1, 1], roots=[(G(-1), 1)], pat='real_simple', T=2)
     t2 = poly_term([1], [2, 1], roots=[(G(-2), 1)], pat='real_simple', T=3)
     cs.append(mk_case([t1, t2], nested=True, ivfv=False, tag='nested-delay'))
+    # exp(-2*s)*(1 - exp(-s))/s : a pure delay in front of a non-rational parenthesised sum
+    u1 = poly_term([1], [0, 1], roots=[(G(0), 1)], pat='origin', T=2)
+    u2 = poly_term([1], [0, 1], roots=[(G(0), 1)], pat='origin', T=3, c=-1)
+    cs.append(mk_case([u1, u2], nested=True, ivfv=False, tag='nested-delay-nonrational'))
+    cs.append(mk_case([u1, u2], nested=True, ivfv=False, opts=[('causal', True)], tag='nested-delay-nonrational'))
     # plain sanity cases
     cs.append(mk_case([poly_term([1, 0, 1], [3, 1], roots=[(G(-3), 1)], pat='real_simple')], tag='improper'))
     cs.append(mk_case([poly_term([3, 1], [5, 2, 1], roots=[(G(-1, 2), 1), (G(-1, -2), 1)], pat='cpx_pair')], opts=[('damped_sin', True)], tag='ds'))
@@ -491,7 +522,7 @@ def gen_cases(rng, tier):
     k0 = rng.randint(0, 1000)
     for i in range(n):
         pat = PATTERNS[i % len(PATTERNS)]
-        nterms = 1 if i % 4 else rng.randint(2, 3)
+        nterms = 1 if (i % 4 and i % 11 != 5) else rng.randint(2, 3)
         delays = [Fraction(0)] + rng.sample(DELAYS, 3)
         if i % 3 == 1:
             delays = rng.sample(DELAYS, 3)
@@ -524,7 +555,16 @@ def gen_cases(rng, tier):
                 B[-1] = G(1)
             terms[0].update({'B': B, 'A': from_roots(roots, lead), 'roots': roots, 'lead': lead, 'pat': 'second_order'})
         const = rng.choice([Fraction(1), Fraction(1), Fraction(2), Fraction(-3), Fraction(1, 2)])
-        cases.append(mk_case(terms, const=const, opts=opts, damping=damping))
+        nested = False
+        if i % 11 == 5 and len(terms) >= 2:
+            # exp(-s*T0) * (R_0 + exp(-s*T_1') R_1 + ...): exercises the expand-and-recurse fall-back of term()
+            T0 = rng.choice(DELAYS)
+            inner = [Fraction(0)] + rng.sample(DELAYS, 2)
+            for k, tm in enumerate(terms):
+                tm['T'] = T0 + inner[k]
+                tm['form'] = 'ratio'
+            nested = True
+        cases.append(mk_case(terms, const=const, opts=opts, damping=damping, nested=nested, **({'ivfv': False} if nested else {})))
     return cases
 
 
@@ -581,6 +621,19 @@ def ds_source(tm, opts, ds_guard=False, deg_guard=False, real_guard=False):
     return 'pair', pair
 
 
+def delay_lit(T, T0=None):
+    """the delay the model uses for a term exp(-s*T)*R(s), computed by the TRANSLATED definitions:
+    delay_factor turns the exponent coefficient -T into a delay, term() shifts by it; for a nested
+    input exp(-s*T0)*(... exp(-s*(T-T0)) R ...) the fall-back first re-attaches fallback_gen T0"""
+    T = Fraction(T)
+    if T0 is None:
+        e = qc(-T)
+    else:
+        T0 = Fraction(T0)
+        e = '(- (fallback_gen (delay_upd_gen (qc 0 1) %s) + %s))%%Qc' % (qc(-T0), qc(T - T0))
+    return '(shift_c_gen (delay_upd_gen (qc 0 1) %s))' % e
+
+
 def coq_case(i, c, r, ds_guard=False, deg_guard=False, real_guard=False):
     """Coq text of one evaluated case, or None"""
     kw = []
@@ -592,18 +645,22 @@ def coq_case(i, c, r, ds_guard=False, deg_guard=False, real_guard=False):
     if c.get('expect_error'):
         F = []
         for tm in c['terms']:
-            F.append('mkterm %s %s [] [] %s %s' % (qi(G(tm['c'])), qc(tm['T']), qilist(tm['B']), qilist(tm['A'])))
+            F.append('mkterm %s %s [] [] %s %s' % (qi(G(tm['c'])), delay_lit(tm['T']), qilist(tm['B']), qilist(tm['A'])))
         return '(%d%%nat, bit (predicts_error (B_gen KI jI) guard_gen %s %s [%s]) 2)' % (i, kw, const, '; '.join(F)), {}
     if 'certs' not in r or 'obs' not in r or 'unparsed' in r['obs']:
         return None, {}
     F = []
     srcs = []
+    dchk = []
+    T0n = min(tm['T'] for tm in c['terms']) if c.get('nested') else None
     use_model = True
     meta = {'ds': 0}
     for tm, ce in zip(c['terms'], r['certs']):
         ts = '[' + '; '.join('(%s, %s, %d%%nat)' % (qi(G.of(a)), qi(G.of(p)), o) for a, p, o in zip(ce['R'], ce['P'], ce['O'])) + ']'
         C = qilist([G.of(x) for x in ce['Q']])
-        F.append('mkterm %s %s %s %s %s %s' % (qi(G(tm['c'])), qc(tm['T']), C, ts, qilist(tm['B']), qilist(tm['A'])))
+        F.append('mkterm %s %s %s %s %s %s' % (qi(G(tm['c'])), delay_lit(tm['T'], T0n), C, ts, qilist(tm['B']), qilist(tm['A'])))
+        if tm['T'] != 0:
+            dchk.append('qc_eqb (shift_u_gen %s) (shift_c_gen %s) && qc_eqb (step_gen %s) (shift_c_gen %s)' % ((qc(tm['T']),) * 4))
         kind, txt = ds_source(tm, c['opts'], ds_guard, deg_guard, real_guard)
         if kind == 'skip':
             use_model = False
@@ -629,12 +686,12 @@ def coq_case(i, c, r, ds_guard=False, deg_guard=False, real_guard=False):
         sub = ce.get('sub') or {}
         if 'R' in sub:
             poles = '[' + '; '.join('(%s, %d%%nat)' % (qi(G.of(p)), n) for p, n in sub['poles']) + ']'
-            rchk.append('residues_chk res_sel_gen %s %s %s %s [%s]' % (poles, qilist([G.of(x) for x in sub['B']]), qilist([G.of(x) for x in sub['R']]),
+            rchk.append('residues_chk_d res_sel_gen res_div_gen %s %s %s %s [%s]' % (poles, qilist([G.of(x) for x in sub['B']]), qilist([G.of(x) for x in sub['R']]),
                                                                     qilist([G.of(x) for x in sub['P']]), '; '.join('%d%%nat' % o for o in sub['O'])))
     meta['res_sub'] = len(rchk)
-    txt = '(%d%%nat, Nat.add (case_code (B_gen KI jI) guard_gen %s %s [%s] [%s] %s %s %s %s) (bit (%s) 32))' % (
+    txt = '(%d%%nat, Nat.add (Nat.add (case_code (B_gen KI jI) guard_gen %s %s [%s] [%s] %s %s %s %s) (bit (%s) 32)) (bit (%s) 64))' % (
         i, kw, const, ';\n     '.join(F), '; '.join(srcs), 'true' if use_model else 'false', obs, iv, fv,
-        ' && '.join('(%s)' % x for x in rchk) if rchk else 'true')
+        ' && '.join('(%s)' % x for x in rchk) if rchk else 'true', ' && '.join('(%s)' % x for x in dchk) if dchk else 'true')
     return txt, meta
 
 
@@ -1064,6 +1121,59 @@ def run(tier='quick', replay=None):
             w.cleanup()
 
 
+def residue_v(tr):
+    return (HEADER % 'lcapy/ratfun.py (_find_residues_sub)') + r'''
+Require Import LT.FieldSec LT.PolyQ LT.ExpPoly LT.ILT LT.ILTResidue Gen.ILTGen.
+Local Open Scope F_scope.
+''' + RES_BODY + r'''
+Print Assumptions res_sel_spec. Print Assumptions res_div_spec. Print Assumptions residues_sub_gen_is_model.
+'''
+
+
+def delay_v(tr):
+    return (HEADER % 'lcapy/inverse_laplace.py (delay_factor, term)') + r'''
+(* the delay bookkeeping of delay_factor() and term(), translated from the source:
+   exp(c0*s) carries the delay -c0; cresult and uresult are shifted by the delay, the step sits
+   at the delay, and the expansion fall-back re-attaches the whole stripped delay to every term *)
+Require Import LT.FieldSec LT.PolyQ LT.ExpPoly LT.ILT Gen.ILTGen Gen.C10_branches.
+From Coq Require Import QArith Qcanon.
+Local Open Scope F_scope.
+
+Theorem delay_factor_sign : forall d c0 : Qc, delay_upd_gen d c0 = (d - c0)%Qc.
+Proof. intros. unfold delay_upd_gen. ring. Qed.
+Theorem term_shift_c : forall T : Qc, shift_c_gen T = T.
+Proof. intros. unfold shift_c_gen, qc. ring. Qed.
+Theorem term_shift_u : forall T : Qc, shift_u_gen T = T.
+Proof. intros. unfold shift_u_gen, qc. ring. Qed.
+Theorem term_step_at_delay : forall T : Qc, step_gen T = T.
+Proof. intros. unfold step_gen, qc. ring. Qed.
+Theorem term_fallback_keeps_delay : forall T : Qc, fallback_gen T = T.
+Proof. intros. unfold fallback_gen, qc. ring. Qed.
+
+Section FB.
+Variable K : fld.
+Variable j : K.
+Hypothesis j2 : j * j = fopp 1.
+Variable cj : K -> K.
+Variable guard : bool -> nat -> nat -> bool.
+Hypothesis Hg : guard_sound guard.
+Variable E : Qc -> K.
+Hypothesis E0 : E 0%Qc = 1.
+(* the fall-back of term() with the TRANSLATED re-attached delay: the sum of the transformed
+   pieces transforms back to exp(-sT) * (sum of the pieces), for every list of pieces *)
+Theorem term_fallback_LT_gen : forall causal s (pieces : list (iterm K)) (T : Qc), qc_ltb T 0 = false ->
+  (forall tm, In tm pieces -> wf_term K s tm /\ it_delay tm = 0%Qc) ->
+  exists r, sum_terms (map (fun tm => term_model K cj (B_gen K j) guard causal (set_delay (fallback_gen T) tm)) pieces) = Some r /\
+            tval K E s r = E T * image_sum K E s pieces.
+Proof. intros causal s pieces T HT Hw.
+  destruct (fallback_LT K cj (B_gen K j) guard Hg (branches_gen_ok K j j2) E E0 causal s pieces T HT Hw) as [r [Hr Hv]].
+  exists r. split; [|exact Hv]. rewrite <- Hr. apply f_equal. apply map_ext. intros tm. rewrite term_fallback_keeps_delay. reflexivity. Qed.
+End FB.
+Print Assumptions delay_factor_sign. Print Assumptions term_shift_c. Print Assumptions term_shift_u. Print Assumptions term_step_at_delay.
+Print Assumptions term_fallback_keeps_delay. Print Assumptions term_fallback_LT_gen.
+'''
+
+
 def ds_v(tr):
     for k in (1, 2, 3):
         if tr.ds[k].get('nwit') != 2:
@@ -1082,7 +1192,7 @@ Print Assumptions damped_sin_1. Print Assumptions damped_sin_2. Print Assumption
 
 
 def extra_theorem_files(tr):
-    return {'C10_ds.v': ds_v(tr)}
+    return {'C10_ds.v': ds_v(tr), 'C10_delay.v': delay_v(tr), 'C10_residue.v': residue_v(tr)}
 
 
 if __name__ == '__main__':
